@@ -48,6 +48,7 @@ Extraction "model.ml"
   HtmlSpec.well_nested
   HtmlSpec.safe_ev
   HtmlSpec.s7
+  HtmlSpec.s4
   Scanners.dangerous_url
   Bytes.dec
   Anchor.slug_ascii
